@@ -42,14 +42,23 @@ PRIMARY = ("p_bar", "p_from_bar", "p_to_bar", "t_k", "t_from_k", "t_to_k", "t_ou
            "mdot_from_kg_per_s", "mdot_to_kg_per_s", "mdot_flow_kg_per_s")
 
 
-def compare(a, b, atol, rtol):
+def compare(a, b, atol, rtol, zero_res_valves=()):
     """Only the primary unknowns (pressures, mass flows, temperatures) are compared, with an absolute bound
     derived from the convergence test: a run is accepted when its last Newton step changed every unknown by
     <= tol, so two converged runs differ by at most a small multiple of tol in p, m and T. Derived quantities
     (v, Re, lambda, ...) are functions of these and scale the error by 1/|m|; they are not compared."""
     def prim(s):
-        return {t: {"index": v["index"], "cols": {c: x for c, x in v["cols"].items() if c in PRIMARY}}
-                for t, v in s.items()}
+        out = {}
+        for t, v in s.items():
+            cols = {c: list(x) for c, x in v["cols"].items() if c in PRIMARY}
+            if t == "res_valve" and zero_res_valves:
+                # a valve without loss coefficient has phi = 0 (outside the uniqueness theorem): the split of the
+                # flow between two such valves in one mesh is undetermined; their own flow is not compared
+                for c in cols:
+                    if c.startswith("mdot"):
+                        cols[c] = [None if i in zero_res_valves else x for i, x in zip(v["index"], cols[c])]
+            out[t] = {"index": v["index"], "cols": cols}
+        return out
     return drive.same_results(prim(a), prim(b), rtol=rtol, atol=atol)
 
 
@@ -95,6 +104,7 @@ def run(ctx):
         else:
             base_kw = dict(mode="hydraulics", use_numba=False, **TIGHT)
             col, lo, hi, atol = "pn_bar", 0.4, 2.5, 1e-7
+        zrv = {kw["index"] for fn, kw in spec["ops"] if fn == "create_valve" and not kw.get("loss_coefficient", 0)}
         st0, r0 = run_variant(spec, **base_kw)
         ctx.count("base_" + profile + "_" + st0)
         if st0 != "ok":
@@ -112,7 +122,7 @@ def run(ctx):
             if not both:
                 continue
             nconv += 1
-            diffs = compare(r0, r, atol=atol, rtol=1e-9)
+            diffs = compare(r0, r, atol=atol, rtol=1e-9, zero_res_valves=zrv)
             if diffs:
                 ctx.violation({"clause": "start_value_or_damping_independence", "variant": name.split("_")[0],
                                "profile": profile},
